@@ -352,6 +352,15 @@ def gen_prim_value(rng, p, boundary=0.5):
         n = rng.choice([0, 1, 2, 5, 127, 128, 129, rng.randrange(0, 40)])
         return "b" + hexs(bytes(rng.getrandbits(8) for _ in range(n)))
     if p == "uuid":
+        c = rng.random()
+        if c < 0.35:
+            # nil, max, one half zero, one half all ones, a single bit, the RFC 4122 example
+            hi = rng.choice([0, (1 << 64) - 1, 1, 1 << 63, rng.getrandbits(64), 0x123456789abcdef0])
+            lo = rng.choice([0, (1 << 64) - 1, 1, 1 << 63, rng.getrandbits(64), 0])
+            return "b" + hexs(hi.to_bytes(8, "big") + lo.to_bytes(8, "big"))
+        if c < 0.45:
+            k = rng.randrange(16)
+            return "b" + hexs(bytes(rng.choice([0, 0xff]) if j != k else rng.getrandbits(8) for j in range(16)))
         return "b" + hexs(bytes(rng.getrandbits(8) for _ in range(16)))
     if p == "bigint":
         c = rng.random()
